@@ -289,13 +289,13 @@ class BoundedGaussian(Gaussian):
             return super().prob(p)
 
     def sample(self, size=None):
-        val = super().sample(size)
-        out = True
+        val = np.atleast_1d(super().sample(size))
+        out = np.logical_or(val < self.lower_bound, val > self.upper_bound)
         while np.any(out):
-            out = np.logical_or(val < self.lower_bound, val > self.upper_bound)
-            out = np.where(out)
-            val[out] = super().sample(len(out[0]))
-        return val
+            val[out] = super().sample(out.sum())
+            out = np.logical_or(val < self.lower_bound,
+                                val > self.upper_bound)
+        return val[0] if size is None else val
 
 
 class TransformedPrior(Prior):
